@@ -85,3 +85,10 @@ Fixpoint deferred_targets (dcs cs pend : list bytes) : list bytes :=
 
 Definition cst_with_parents (f : fs) (ps : list (bytes * bytes * bool)) : cst :=
   {| s_fs := f; s_links := []; s_parents := ps; s_reads := [] |}.
+
+(* ---- the source side ----
+   [src_reach f sr i]: inode i is the directory sr, a directory below it (through real directories),
+   or an entry (of any kind) of such a directory: what a walk below srcRoot that never follows a
+   symlink can reach. *)
+Definition src_reach (f : fs) (sr i : N) : Prop :=
+  exists ns d, chain f sr ns d /\ (i = d \/ exists x, blookup x (dents f d) = Some i).
